@@ -149,6 +149,14 @@ class P(StreamProperty):
                 cfg2 = cfg if t % 5 else gens.Cfg('2d', k, r, length=rng.choice([1, 2, 7]), payload='rand', pseed=t)
                 add(gens.decoder_case('d-%d-%d-%d' % (k, r, t), cfg2, order, api=api, cb=['none', 'buf', 'null', 'mix'][(t // 3) % 4], finish=True, matrix=(t % 7 == 0),
                                       role=2 if t % 4 else 3), role='dec')
+            # a shape the codec refuses first, then this one on the same session: nothing of the first attempt may stay behind
+            for t in range(3):
+                sub_ = sorted(rng.sample(range(n), rng.randint(max(0, k - 1), n)))
+                add(gens.decoder_case('rf-%d-%d-%d' % (k, r, t), cfg, sub_, api='stream' if t % 2 else 'table', cb=['none', 'mix', 'null'][t],
+                                      finish=True, role=2 if t else 3, refused_first=True), role='dec')
+            c = gens.encoder_case('rfe-%d-%d' % (k, r), cfg, slots='mix')
+            c.lines = c.lines[:2] + [gens.refused_params_line(cfg, 0)] + c.lines[2:]
+            add(c, role='enc')
             # release after every prefix of one history
             order = gens.random_order(rng, rng.sample(range(n), n - 2), 0.2)
             for cut in range(len(order) + 6):
